@@ -135,6 +135,11 @@ func (e *Enc) call(fr *Frame, ins *ssa.Call, c *ssa.CallCommon, guard T, st *Sta
 		}
 	}
 	if fn == nil {
+		if e.contract != nil && e.contract.Opts["dyncalls"] == "pure" {
+			e.assumed = append(e.assumed, e.fnName+": dynamic call through "+c.Value.Name()+" has no effect on modelled state (opt dyncalls=pure)")
+			setRes(e.freshResults(c.Signature(), ins.Name()))
+			return
+		}
 		e.approximate("dynamic call " + c.Value.Name())
 		e.havocAll(st, "dynamic call")
 		setRes(e.freshResults(c.Signature(), ins.Name()))
@@ -487,10 +492,13 @@ func (e *Enc) cutsBefore(fr *Frame, b *ssa.BasicBlock, i int, ins ssa.Instructio
 		return
 	}
 	for _, cs := range fr.contract.Cuts {
-		if !e.prog.anchorHit(fr.fn, cs.Anchor, b, i) {
+		if !e.prog.anchorHit(fr.fn, cs.Anchor, cs.Before, b, i) {
 			continue
 		}
 		sc := e.scopeAt(fr, b, i-1, st)
+		if cs.Before {
+			sc = e.scopeAt(fr, b, i, st)
+		}
 		for _, c := range cs.Assumes {
 			e.assert(Implies(guard, e.evalBool(sc, c.E)))
 			e.assumed = append(e.assumed, "at stmt assume: "+c.Src)
